@@ -49,10 +49,16 @@ def random_spec(rng):
     n = rng.choice([1, 1, 2, 2, 2, 3, 3, 4])
     all_explicit = rng.random() < 0.3       # explicit primary keys everywhere: the statement list can be replayed in any order
     ents = [{'auto': (not all_explicit) and rng.random() < 0.6} for _ in range(n)]
+    for i in range(1, n):
+        # primary key that IS a reference ('ref': PrimaryKey(Ej)) or contains one ('comp': PrimaryKey(Required(Ej), num))
+        if rng.random() < 0.25:
+            ents[i] = {'auto': False, 'pk': [rng.choice(['ref', 'comp']), rng.randrange(i)], 'pkcascade': rng.choice([None, True, True])}
+    plain = [i for i in range(n) if 'pk' not in ents[i]]
     rels = []
     for k in range(rng.choice([1, 1, 2, 2, 3, 4])):
         kind = rng.choice(['m2o', 'm2o', 'm2o', 'o2o', 'o2o', 'm2m'])
         a = rng.randrange(n); b = rng.randrange(n)
+        if kind == 'm2m' and (a not in plain or b not in plain): kind = 'm2o'      # link tables only between single-column keys
         req = rng.random() < 0.4
         if a == b and rng.random() < 0.8: req = False      # a required self reference can (almost) never be created
         casc = rng.choice([None, None, None, True, False])
@@ -66,31 +72,51 @@ class World:
         self.log = []
         db = self.db = Database()
         n = len(spec['ents'])
-        attrs = [dict() for _ in range(n)]
-        for i, e in enumerate(spec['ents']):
-            if not e['auto']: attrs[i]['id'] = PrimaryKey(int)
-            attrs[i]['tag'] = Required(int, unique=True)
-            attrs[i]['val'] = Optional(int)
-        self.ref_attrs = [[] for _ in range(n)]     # (name, target entity, required) non-collection relation attrs
+        body = [[] for _ in range(n)]      # class bodies as source text (composite keys need a real class body)
+        self.ref_attrs = [[] for _ in range(n)]     # (name, target entity, required) non-collection relation attrs that can be re-assigned
         self.m2m_attrs = [[] for _ in range(n)]     # (name, target entity)
+        self.pk_ref = [None] * n                    # (kind, target entity) for entities whose primary key is / contains a reference
+        for i, e in enumerate(spec['ents']):
+            pk = e.get('pk')
+            if pk:
+                kind, j = pk
+                self.pk_ref[i] = (kind, j)
+                ckw = '' if e.get('pkcascade') is None else ', cascade_delete=%r' % e['pkcascade']
+                if kind == 'ref':
+                    body[i].append("p = PrimaryKey('E%d', reverse='q%d')" % (j, i))
+                    body[j].append("q%d = Optional('E%d', reverse='p'%s)" % (i, i, ckw))
+                else:
+                    body[i].append("p = Required('E%d', reverse='q%d')" % (j, i))
+                    body[i].append("num = Required(int)")
+                    body[i].append("PrimaryKey(p, num)")
+                    body[j].append("q%d = Set('E%d', reverse='p'%s)" % (i, i, ckw))
+            elif not e['auto']:
+                body[i].insert(0, "id = PrimaryKey(int)")
+            body[i].append("tag = Required(int, unique=True)")
+            body[i].append("val = Optional(int)")
         for k, r in enumerate(spec['rels']):
             if r['kind'] == 'none': continue          # relationship removed by the shrinker (numbering of the others is kept)
             a, b = r['a'], r['b']; rn, sn = 'r%d' % k, 's%d' % k
-            kw = {} if r['cascade'] is None else {'cascade_delete': r['cascade']}
+            kw = '' if r['cascade'] is None else ', cascade_delete=%r' % r['cascade']
+            ro = 'Required' if r['req'] else 'Optional'
             if r['kind'] == 'm2o':
-                attrs[a][rn] = (Required if r['req'] else Optional)('E%d' % b, reverse=sn)
-                attrs[b][sn] = Set('E%d' % a, reverse=rn, **kw)
+                body[a].append("%s = %s('E%d', reverse='%s')" % (rn, ro, b, sn))
+                body[b].append("%s = Set('E%d', reverse='%s'%s)" % (sn, a, rn, kw))
                 self.ref_attrs[a].append((rn, b, r['req']))
             elif r['kind'] == 'o2o':
-                attrs[a][rn] = (Required if r['req'] else Optional)('E%d' % b, reverse=sn)
-                attrs[b][sn] = Optional('E%d' % a, reverse=rn, **kw)
+                body[a].append("%s = %s('E%d', reverse='%s')" % (rn, ro, b, sn))
+                body[b].append("%s = Optional('E%d', reverse='%s'%s)" % (sn, a, rn, kw))
                 self.ref_attrs[a].append((rn, b, r['req']))
                 self.ref_attrs[b].append((sn, a, False))
             else:
-                attrs[a][rn] = Set('E%d' % b, reverse=sn)
-                attrs[b][sn] = Set('E%d' % a, reverse=rn)
+                body[a].append("%s = Set('E%d', reverse='%s')" % (rn, b, sn))
+                body[b].append("%s = Set('E%d', reverse='%s')" % (sn, a, rn))
                 self.m2m_attrs[a].append((rn, b)); self.m2m_attrs[b].append((sn, a))
-        self.E = [type('E%d' % i, (db.Entity,), attrs[i]) for i in range(n)]
+        ns = {'db': db, 'PrimaryKey': PrimaryKey, 'Required': Required, 'Optional': Optional, 'Set': Set}
+        src = ''.join('class E%d(db.Entity):\n%s\n' % (i, ''.join('    %s\n' % l for l in body[i])) for i in range(n))
+        self.source = src
+        exec(src, ns)
+        self.E = [ns['E%d' % i] for i in range(n)]
         db.bind('sqlite', ':memory:', factory=make_factory(self.log))
         if not strict:
             db.generate_mapping(create_tables=True)
